@@ -64,4 +64,17 @@ def holdsTrace (cs : Classes) (fuel : Nat) (watch : List Nat) (ops : List (Nat Ã
     (obs : List (List (Option Nat))) : Bool :=
   obs == specTrace specSelect fuel watch cs ops
 
+/-- what an observer who looks at the CONTENT of the active list sees: a declared list that is
+empty (`emptyId`) cannot be told from the framework's own empty default -/
+def content (emptyId : Option Nat) (a : Option Nat) : Option Nat :=
+  if a.isSome && a == emptyId then none else a
+
+def contentTrace (emptyId : Option Nat) (t : List (List (Option Nat))) : List (List (Option Nat)) :=
+  t.map fun r => r.map (content emptyId)
+
+/-- the statement for content observations -/
+def holdsTraceContent (emptyId : Option Nat) (cs : Classes) (fuel : Nat) (watch : List Nat)
+    (ops : List (Nat Ã— Key)) (obs : List (List (Option Nat))) : Bool :=
+  obs == contentTrace emptyId (specTrace specSelect fuel watch cs ops)
+
 end Spec.C19
